@@ -20,7 +20,14 @@ RULE = ('operation sequences over {add_variable, attribute set, item set by name
         'Non-trivial = the sequence contains at least one accepted and one rejected operation; distinct by hash of the case.')
 TRUSTED = ['harness/container_common.py (case encoding, real-object driver, OCaml driver text, extraction via ExtrOcamlBasic/ExtrOcamlString)',
            'difflib.get_close_matches is an oracle: its answer is recorded from the run and handed to the model']
-ASSUMPTIONS = ['names used by operations do not start with "_" and are not core attribute names (span, index, names, dtype, ...); '
+ASSUMPTIONS = ['SCOPE: the object keeps its series and its own bookkeeping in one __dict__; an attribute assignment / add_attribute that targets '
+               'the bookkeeping (span, index, a name starting with "_", for models names / dtype) is accepted by the code - also under '
+               'strict=True - and then breaks the invariants (c.span = [1]; m.names = [...]; m.dtype = int; c._X = 5). The property lists '
+               '"variable creation, whole-series, positional, label and bulk assignment, values replacement": such assignments are outside it. '
+               'The theorems carry this as the hypothesis in_scope (C09_*_needs_scope_refuted show it is necessary); the generator produces '
+               'a few of them (K compares the model, which mirrors span / index / names / dtype assignments), the oracle stops judging a '
+               'history at the first one',
+               'names used by operations are otherwise ordinary identifiers; '
                '"attributes"/"strict" are used only as item-set names (rejected with KeyError since fix 216fc36)',
                'operand cells: |ints| < 2**31, floats are half-integers or nan/+-inf, strings are not numeric literals; no object-dtype series '
                '(add_variable without dtype never receives None)',
@@ -41,10 +48,10 @@ def S(v):
 SCALARS = [['i', 0], ['i', 1], ['i', -3], ['i', 7], ['f', 5], ['f', -1], ['f', 4], ['nan'], ['pinf'], ['ninf'],
            ['b', 1], ['b', 0], ['s', 'a'], ['s', 'bc'], ['s', 'xyz'], ['s', ''], ['none']]
 BY_KIND = {
-    'i': [['i', 0], ['i', 1], ['i', -3], ['i', 7], ['i', 12]],
+    'i': [['i', 0], ['i', 1], ['i', -3], ['i', 7], ['i', 12], ['i', 2 ** 40]],
     'f': [['f', 5], ['f', -1], ['f', 4], ['f', 0], ['nan'], ['pinf'], ['ninf']],
     'b': [['b', 1], ['b', 0]],
-    's': [['s', 'a'], ['s', 'bc'], ['s', 'xyz'], ['s', '']],
+    's': [['s', 'a'], ['s', 'bc'], ['s', 'xyz'], ['s', ''], ['s', 'abcdefgh']],
 }
 
 
@@ -158,7 +165,7 @@ def rand_key(rng, span, names):
     return [rng.choice(['t3', 'ko'])]
 
 
-def rand_op(rng, span, kind, nrows_hint, pool=None, cross=True):
+def rand_op(rng, span, kind, nrows_hint, pool=None, cross=True, book=True):
     VARS = pool if pool is not None else globals()['VARS']
     n = len(span)
     r = rng.random()
@@ -169,12 +176,26 @@ def rand_op(rng, span, kind, nrows_hint, pool=None, cross=True):
         q = rng.random()
         how = rng.choice(['copy', 'reindex', 'deepcopy'])
         if q < 0.4:
-            return ['fork', how, rand_op(rng, span, kind, nrows_hint, pool=pool, cross=False)]
+            return ['fork', how, rand_op(rng, span, kind, nrows_hint, pool=pool, cross=False, book=False)]
         if q < 0.6:
-            return ['sib', rand_op(rng, span, kind, nrows_hint, pool=pool, cross=False)]
+            return ['sib', rand_op(rng, span, kind, nrows_hint, pool=pool, cross=False, book=False)]
         if q < 0.8:
             return ['become', how]
         return ['getattr', rng.choice(VARS)]
+    if cross and book and rng.random() < 0.012:
+        # OUT OF SCOPE (see ASSUMPTIONS): assignments to the object's own bookkeeping; reserved names for add_variable (fix d82b358)
+        q = rng.random()
+        if q < 0.25:
+            return ['setattr', 'span', ['L', [S(['i', x]) for x in rng.choice([[1], list(span), list(span)[:1], []])]]]
+        if q < 0.4 and vc:
+            return ['setattr', 'index', ['L', [S(['s', x]) for x in rng.sample(VARS, rng.randint(0, min(2, len(VARS))))]]]
+        if q < 0.55 and not vc:
+            return ['setattr', 'names', ['L', [S(['s', x]) for x in rng.sample(VARS, rng.randint(0, min(2, len(VARS))))]]]
+        if q < 0.65 and not vc:
+            return ['setattr', 'dtype', S(['s', rng.choice(['int', 'float', 'bool', 'str'])])]
+        if q < 0.8:
+            return [rng.choice(['setattr', 'addattr']), '_' + rng.choice(['q', 'foo', 'N']), S(['i', 1])]
+        return ['addvar', rng.choice(['attributes', 'strict']), S(['i', 1]), None]
     if r < 0.05:
         # public read-only hooks: they must leave the object exactly as it was
         q = rng.choice(['completions', 'dir', 'contains', 'contains'] + ([] if kind == 'linker' else ['nbytes']))
@@ -224,7 +245,7 @@ def rand_op(rng, span, kind, nrows_hint, pool=None, cross=True):
 def rand_case(rng, kind, max_ops):
     span = list(rng.choice(SPANS))
     n = len(span)
-    case = {'kind': kind, 'span': span, 'strict': rng.random() < 0.25, 'ops': []}
+    case = {'kind': kind, 'span': span, 'strict': rng.random() < 0.25, 'ops': [], 'span_type': rng.choice(['list', 'list', 'tuple', 'range'])}
     rows = 0
     if kind != 'vc':
         names = rng.sample(VARS[:4], rng.randint(0, 3))
@@ -243,13 +264,16 @@ def rand_case(rng, kind, max_ops):
         rows = len(names)
     # models also carry the solution-tracking series `status` (<U1) and `iterations` (int64): variables like any other
     pool = None if kind == 'vc' or rng.random() < 0.6 else VARS + ['status', 'iterations']
+    scoped = True
     for _ in range(rng.randint(1, max_ops)):
-        op = rand_op(rng, span, kind, rows, pool=pool)
+        op = rand_op(rng, span, kind, rows, pool=pool, cross=scoped)
         if op[0] == 'addvar':
             rows += 1
+        if op[0] in ('setattr', 'addattr') and bookkeeping_name(case, op[1]):
+            scoped = False            # after an out-of-scope assignment: no steps across instances, no final reindex (copies of a broken object)
         case['ops'].append(op)
     # a final reindex() onto another span: kept / dropped / new / reordered periods (the linker has no reindex)
-    if kind != 'linker' and rng.random() < 0.5:
+    if kind != 'linker' and scoped and rng.random() < 0.5:
         top = max(span + [0])
         case['rx'] = rng.choice([span[1:] + [top + 1], [top + 2] + span, list(reversed(span)), span[:1], [], span + [top + 1, top + 2],
                                  [x for x in span if x % 2 == 0] + [top + 5]])
@@ -318,6 +342,14 @@ def gen(rng, tier):
     cases.append({'kind': 'vc', 'span': [10, 11, 12], 'strict': False, 'ops': [
         ['addvar', 'X', li3(1, 2, 3), None], ['fork', 'reindex', ['addvar', 'Y', S(['i', 1]), None]], ['fork', 'copy', ['addvar', 'Z', S(['i', 1]), None]],
         ['become', 'reindex'], ['sib', ['addvar', 'W', S(['i', 1]), None]], ['addvar', 'W', S(['f', 3]), None], ['query', 'completions']]})
+    # reserved names (fix d82b358): '_' + name taken by the bookkeeping or by an attribute made earlier
+    cases.append({'kind': 'vc', 'span': [10, 11, 12], 'strict': False, 'ops': [
+        ['addvar', 'X', li3(1, 2, 3), None], ['addvar', 'attributes', S(['i', 0]), None], ['addvar', 'strict', li3(1, 0, 1), None],
+        ['setattr', 'foo', S(['i', 1])], ['setattr', 'X', li3(4, 5, 6)]]})
+    cases.append({'kind': 'model', 'span': [10, 11, 12], 'strict': True, 'names': ['X'], 'dreq': 'f', 'default': S(['f', 0]), 'ivs': [], 'extra': 0,
+                  'ops': [['addvar', 'attributes', S(['i', 0]), None], ['addvar', 'strict', S(['i', 0]), 'b'], ['setattr', 'X', li3(4, 5, 6)]]})
+    cases.append({'kind': 'vc', 'span': [10, 11, 12], 'strict': False, 'ops': [
+        ['addattr', '_q', S(['i', 1])], ['addvar', 'q', S(['i', 0]), None], ['addvar', 'X', li3(1, 2, 3), None]]})
     alpha = reduced_alphabet()
     depth = 3
     seqs = list(itertools.product(range(len(alpha)), repeat=depth))
@@ -422,6 +454,11 @@ def _reindex_failures(case, obs, final, bad):
                 break
 
 
+def bookkeeping_name(case, name):
+    """The names whose assignment edits the object's own bookkeeping (Container.v `bookkeeping`)."""
+    return name in ('span', 'index') or name.startswith('_') or (case['kind'] != 'vc' and name in ('names', 'dtype'))
+
+
 def oracle(case, obs):
     fails = []
 
@@ -442,6 +479,8 @@ def oracle(case, obs):
     steps = obs['steps']
     for i, (op, stp) in enumerate(zip(case['ops'], steps)):
         st, out = stp['st'], stp['out']
+        if op[0] in ('setattr', 'addattr') and bookkeeping_name(case, op[1]):
+            return fails              # not one of the property's operations (ASSUMPTIONS: SCOPE); what follows is not judged
         if op[0] == 'addvar' and out == 'ok':
             declared.append(op[1])
             # "the dtype it was created with": the dtype asked for (for models: the model's default when none is given)
@@ -475,6 +514,9 @@ def oracle(case, obs):
             bad('values|content', 'op %d %s: values is not the stack of the series in declaration order' % (i, op[0]))
         if st['size'] != len(rows) * n + extra:
             bad('size', 'op %d: size %s, expected %d' % (i, st['size'], len(rows) * n + extra))
+        if stp.get('shared'):
+            bad('sharing|series-refers-to-operand', "op %d %s: overwriting the caller's ndarray AFTER the assignment changed the object (%s)" % (
+                i, op[0], stp['shared'][:120]))
         if stp.get('values_set_ok') is False:
             bad('values|setter-content', 'op %d: obj.values = v was accepted but the series do not hold the assigned rows '
                 '(row i -> i-th declared variable, cast to its dtype)' % i)
@@ -510,7 +552,11 @@ def oracle(case, obs):
             if changed:
                 tgt = _target_names(op)
                 only_data = all(a[k][0] == b[k][0] and a[k][1] == b[k][1] for k in changed)
-                if only_data and out in ('ValueError', 'TypeError', 'OverflowError') and set(changed) <= set(tgt):
+                in_place = (op[0] == 'setitem' and op[1][0] == 'sl') or (
+                    (op[0] == 'setattr' or (op[0] == 'setitem' and op[1][0] == 'n')) and op[2][0] == 'A')
+                # the kept finding: an IN-PLACE copy (label slice, or whole-series assignment of an ndarray) whose element cast
+                # fails part-way. A list / scalar whole-series assignment, a label assignment etc. must be atomic.
+                if in_place and only_data and out in ('ValueError', 'TypeError', 'OverflowError') and set(changed) <= set(tgt):
                     bad('in-place-assign|partial-write', 'op %d %s on %s raised %s after NumPy had already written the leading cells '
                         'of the series (element cast failed part-way)' % (i, op[0], tgt, out))
                 else:
@@ -518,6 +564,10 @@ def oracle(case, obs):
         # unknown / duplicate names must raise
         if op[0] == 'setitem' and len(op[1]) > 1 and op[1][1] not in prev['index'] and out == 'ok':
             bad('setitem|unknown-name-not-rejected', "op %d: obj[%r, ...] = v with %r not a variable did not raise" % (i, op[1][1], op[1][1]))
+        if op[0] == 'addvar' and op[1] not in prev['index'] and out == 'ok' and (
+                op[1] in ('attributes', 'strict') or ('_' + op[1]) in prev['adict']):
+            bad('add_variable|reserved-name-accepted', "op %d: add_variable(%r) was accepted although '_%s' is already an entry of the object" % (i, op[1], op[1]))
+            break
         if op[0] == 'addvar' and op[1] in prev['index'] and out != 'DuplicateNameError':
             bad('add_variable|duplicate-name', 'op %d: add_variable of existing %s gave %s' % (i, op[1], out))
         if op[0] == 'addattr' and (op[1] in prev['index'] or op[1] in prev['reg']) and out != 'DuplicateNameError':
@@ -554,7 +604,9 @@ def oracle(case, obs):
             hint = stp.get('hint')
             if out == 'AttributeError' and hint is not None:
                 cands = [x for x in (prev['names'] if case['kind'] != 'vc' else prev['index']) if x.lower() == hint]
-                if len(cands) == 1 and ("'%s'?" % cands[0]) not in stp.get('msg', ''):
+                import difflib
+                clear = difflib.SequenceMatcher(None, op[1].lower(), hint).ratio() >= 0.6      # whatever cutoff the library uses
+                if len(cands) == 1 and clear and cands[0] not in stp.get('msg', ''):
                     bad('strict|closest-not-reported', 'op %d: near-miss %s: message does not suggest %s' % (i, op[1], cands[0]))
         if prev['strict'] and op[0] != 'addattr' and not (op[0] == 'setattr' and op[1] == 'strict'):
             new = [k for k in st['adict'] if k not in prev['adict']]
